@@ -17,7 +17,8 @@ RULE = ("(failure points, exhaustive) for each API (compute_dynamics, compute_dy
         "compute_correlations), each progress type {silent, simple, bar, None=default}, N=4 steps and each step k=0..N a "
         "failure is injected at step k: exception from the Hamiltonian / rate / Lindblad / field-equation / target / "
         "propagator-derivative / correlation / spectral-density callable (the Hamiltonian also raising a BaseException that "
-        "is not an Exception, like KeyboardInterrupt), a missing cap tensor, a mis-shaped MPO tensor; computations of zero "
+        "is not an Exception, like KeyboardInterrupt), a missing cap tensor, a mis-shaped MPO tensor; an output stream that breaks after k writes of the progress "
+        "report; computations of zero "
         "steps; a chain computation continued by a second compute() (single- and multi-threaded); plus "
         "the exception-free run and runs where the (harness-owned) timer fires in the middle of the computation. "
         "oqupy.util.Timer is replaced by a fake timer (no wall clock). Oracle after the call returned or raised: no armed "
@@ -128,6 +129,11 @@ def scenarios():
     apis = sorted({s["api"] for s in sc})
     for a in apis:
         sc.append(dict(api=a, fault="none", k=N))
+    # the output stream breaks after k successful writes of the progress report
+    for a in ("compute_dynamics", "compute_dynamics_with_field", "Tempo", "MeanFieldTempo", "PtTempo", "GibbsTempo", "PtTebd",
+              "compute_correlations", "state_gradient"):
+        for k in (0, 1, 2, 3, 5):
+            sc.append(dict(api=a, fault="stdout-breaks", k=k))
     # computations of zero steps (they may raise; nothing may be left behind) and a chain computation continued once
     for a in ("compute_dynamics", "compute_dynamics_with_field", "Tempo", "MeanFieldTempo", "PtTempo", "PtTebd", "PtTebd-multithread"):
         sc.append(dict(api=a, fault="zero-steps", k=0))
@@ -273,6 +279,22 @@ def _run_api(case):
     raise HarnessError("unknown api " + api)
 
 
+class _FailingOut(io.StringIO):
+    """an output stream that breaks after n successful writes (closed pipe, full disk): the failure then comes from the
+    progress report's own print"""
+
+    def __init__(self, n_ok):
+        super().__init__()
+        self.n_ok = n_ok
+        self.count = 0
+
+    def write(self, text):
+        self.count += 1
+        if self.count > self.n_ok:
+            raise OSError("injected: output stream broken")
+        return super().write(text)
+
+
 class _FiringTimer(FakeTimer):
     """fires itself synchronously when it is the j-th timer started (models the timer elapsing mid-computation)"""
     fire_at = None
@@ -296,7 +318,7 @@ def run_fault(case):
     saved_timer = U.Timer
     U.Timer = _FiringTimer
     old_stdout = sys.stdout
-    sys.stdout = buf = io.StringIO()
+    sys.stdout = buf = (_FailingOut(k) if fault == "stdout-breaks" else io.StringIO())
     before = set(threading.enumerate())
     raised = None
     try:
